@@ -23,12 +23,17 @@ type Tape struct {
 	replay  bool
 	streams map[string]*stream
 	Draws   int
+	// generation mode only: streams created after Reseed draw from altSeed unless kept
+	altSeed uint64
+	altOn   bool
+	altKeep map[string]bool
 }
 
 type stream struct {
-	vals []int
-	pos  int
-	rng  uint64
+	vals   []int
+	pos    int
+	rng    uint64
+	preset []int
 }
 
 func NewTape(seed uint64) *Tape {
@@ -68,10 +73,43 @@ func Mix(seed uint64, s string, i uint64) uint64 {
 func (t *Tape) stream(label string) *stream {
 	s := t.streams[label]
 	if s == nil {
-		s = &stream{rng: Mix(t.Seed, label, 0)}
+		seed := t.Seed
+		if t.altOn && !t.altKeep[label] {
+			seed = t.altSeed
+		}
+		s = &stream{rng: Mix(seed, label, 0)}
 		t.streams[label] = s
 	}
 	return s
+}
+
+// Replaying reports whether the tape replays recorded streams.
+func (t *Tape) Replaying() bool { return t.replay }
+
+// Reseed makes every stream that has not been used yet - except the labels in keep -
+// draw from (seed,label) instead of (t.Seed,label). Generation mode only (a replayed
+// tape already holds the values). It lets many runs share one generated workload while
+// run-specific choices (the kept labels) still differ per run; all values are recorded
+// on the tape as usual, so replay files stay self-contained and shrinkable.
+func (t *Tape) Reseed(seed uint64, keep ...string) {
+	if t.replay {
+		return
+	}
+	t.altOn, t.altSeed = true, seed
+	t.altKeep = map[string]bool{}
+	for _, k := range keep {
+		t.altKeep[k] = true
+	}
+}
+
+// Preset queues values that the next draws of label will return (generation mode only;
+// they are recorded like drawn values). Used for enumeration plans derived from the run index.
+func (t *Tape) Preset(label string, vals ...int) {
+	if t.replay {
+		return
+	}
+	s := t.stream(label)
+	s.preset = append(s.preset, vals...)
 }
 
 // Draw returns a value in [0,n). n<=1 returns 0 without consuming anything.
@@ -94,7 +132,16 @@ func (t *Tape) Draw(label string, n int) int {
 		}
 		return v
 	}
-	v := int(splitmix(&s.rng) % uint64(n))
+	var v int
+	if len(s.preset) > 0 {
+		v = s.preset[0]
+		s.preset = s.preset[1:]
+		if v < 0 || v >= n {
+			v = 0
+		}
+	} else {
+		v = int(splitmix(&s.rng) % uint64(n))
+	}
 	s.vals = append(s.vals, v)
 	s.pos++
 	return v
